@@ -181,6 +181,7 @@ def recorded_on_every_exit(ctx, f, fld, src):
 
 
 def run(ctx):
+    integer_text_is_decimal(ctx, "C08")
     from .C18 import every_resolved_cgroup_is_returned
     every_resolved_cgroup_is_returned(ctx, "C08")      # a detector reads an empty result as 'watched value 0'
     # a detector with a duration keeps its window in the plugin: it judges 'for N seconds' only if it is run on every tick
